@@ -199,6 +199,8 @@ type Exec struct {
 	ghash      []uint64
 	ohash      map[int]uint64
 	enScratch  []*G
+	lastKey    unsafe.Pointer
+	lastState  *chanState
 	epoch      uint32
 	keepStacks bool
 	Steps      int
@@ -993,11 +995,15 @@ func stateOf[T any](e *Exec, ch <-chan T) *chanState {
 	if k == nil {
 		return nil
 	}
+	if k == e.lastKey {
+		return e.lastState
+	}
 	st := e.chans[k]
 	if st == nil {
-		st = &chanState{id: e.newObj(), cap: cap(ch), buf: &ring[T]{}}
+		st = &chanState{id: e.newObj(), cap: cap(ch), buf: &ring[T]{items: make([]T, 0, min(cap(ch), 1<<16))}}
 		e.chans[k] = st
 	}
+	e.lastKey, e.lastState = k, st
 	return st
 }
 
@@ -1019,6 +1025,14 @@ func Send[T any](ch chan<- T, v T) {
 		return
 	}
 	st := stateOf(e, *(*<-chan T)(unsafe.Pointer(&ch)))
+	if !e.window && st != nil && st.cap > 0 && st.n < st.cap && !st.closed {
+		// outside the window the default policy keeps the running goroutine going:
+		// a buffered send with room needs no scheduling decision
+		r := st.buf.(*ring[T])
+		r.items = append(r.items, v)
+		st.n++
+		return
+	}
 	o := op{kind: KSend, ch: st}
 	if st != nil && st.cap == 0 {
 		o.val = any(v)
